@@ -133,6 +133,7 @@ def decOp (s : String) : Option (Op × List String) :=
   | ["trimseqs", n, fs] => (parseInt? n).map fun v => (.trimSeqs v (decBool fs), [])
   | ["autoalpha"] => some (.autoAlpha, [])
   | ["revcomp"] => some (.revcomp, [])
+  | ["compress"] => some (.compress, [])
   | ["rmgapsites", f, e] => do
     let (x, y) ← frac f
     pure (.rmGapSites x y (decBool e), [])
